@@ -125,7 +125,7 @@ fn empty_glyph(advance: u16) -> GlyphDef {
 }
 
 fn base_font(axes: Vec<AxisDef>, glyphs: Vec<GlyphDef>, gvar: Vec<Option<GlyphVar>>) -> VarFont {
-    VarFont { axes, avar: None, glyphs, gvar, gvar_long_offsets: true, gvar_shared_prefix: vec![], hvar: None, mvar: None, num_h_metrics: None, cvt: None, cvar: None }
+    VarFont { axes, avar: None, glyphs, gvar, gvar_long_offsets: true, gvar_shared_prefix: vec![], hvar: None, mvar: None, num_h_metrics: None, cvt: None, cvar: None, vertical: false }
 }
 
 // ---- family iup
@@ -649,6 +649,8 @@ fn gen_metrics(idx: &[usize]) -> Option<Case> {
     let nr = regions.len() as u16;
     let all_regions: Vec<u16> = (0..nr).collect();
     let mut hvar_inconsistent = false;
+    // every other HVAR form also carries vertical metrics (vhea, vmtx, VVAR): VVAR is a variation table and must not survive
+    font.vertical = hk % 2 == 1;
     font.hvar = match hk {
         0 => None,
         1 => Some(Hvar {
